@@ -237,7 +237,13 @@ func c04R3(c *Ctx) {
 				if st, ok := in.(*ssa.Store); ok {
 					if fa, ok := st.Addr.(*ssa.FieldAddr); ok && isNamed(fa.X.Type(), "crypto/tls", "Config") {
 						switch fieldOf(fa).Name() {
-						case "InsecureSkipVerify", "VerifyPeerCertificate", "VerifyConnection", "RootCAs", "MinVersion", "CipherSuites":
+						case "NextProtos", "ClientSessionCache", "SessionTicketsDisabled", "Time", "Rand", "KeyLogWriter":
+							// do not change whom the peer is verified to be, nor what is presented to it
+						default:
+							// InsecureSkipVerify, VerifyPeerCertificate, VerifyConnection, RootCAs,
+							// ServerName (the certificate is then checked against another name than the
+							// host that was dialled and is sent as Host), Certificates /
+							// GetClientCertificate (the request is no longer anonymous), versions, suites
 							weak = fieldOf(fa).Name() + " set at " + P.InstrPos(in)
 						}
 					}
